@@ -244,7 +244,8 @@ func rulesC05(r *Run) {
 	// ---- R5
 	r.Kind("R5", "K1")
 	ruleRunnerGraph(r, "R5")
-	r.Expect("R5", 5)
+	ruleRunnerStartSilentStop(r, "R5")
+	r.Expect("R5", 6)
 
 	// ---- R6: recorded attempts stay distinct records when read back from the vaults
 	r.Kind("R6", "K7")
